@@ -11,7 +11,8 @@ WRAPS  := nni_plat_mtx_lock nni_plat_mtx_unlock nni_plat_cv_wake nni_plat_cv_wak
           nni_plat_thr_init nni_plat_thr_fini nni_clock nni_msleep epoll_wait
 WRAPF  := $(foreach w,$(WRAPS),-Wl,--wrap=$(w))
 
-PURE   := C17 C19
+PURE   := C17 C19 C18
+EXTRA_C18 := $(B)/obj/shim_core.o
 ALL    := $(PURE)
 
 all: $(addprefix $(B)/bin/,$(ALL))
@@ -20,10 +21,16 @@ $(B)/obj/%.o: $(V)/engine/%.c $(LIBNNG)
 	@mkdir -p $(B)/obj
 	$(CC) $(CFLAGS) -MMD -c $< -o $@
 
+NNGDEFS = $(shell cat $(B)/san/nng_defs.txt)
+$(B)/obj/%.o: $(V)/props/%.c $(LIBNNG)
+	@mkdir -p $(B)/obj
+	$(CC) $(CFLAGS) $(NNGDEFS) -MMD -c $< -o $@
+
 $(B)/obj/%.o: $(V)/props/%.cpp $(V)/engine/pbt.hpp $(LIBNNG)
 	@mkdir -p $(B)/obj
 	$(CXX) $(CXXFLAGS) -MMD -c $< -o $@
 
+$(B)/bin/C18: $(B)/obj/shim_core.o
 $(B)/bin/%: $(B)/obj/%.o $(B)/obj/caseio.o $(LIBNNG)
 	@mkdir -p $(B)/bin
 	$(CXX) $(CXXFLAGS) -o $@ $(B)/obj/$*.o $(B)/obj/caseio.o $(EXTRA_$*) $(LIBNNG) -lrapidcheck -lpthread
